@@ -84,7 +84,9 @@ func selftestDeterminism(props []string) int {
 			for v := 1; v < len(procs); v++ {
 				if sums[key{sd, v}] != sums[key{sd, 0}] {
 					diverged++
-					fmt.Printf("selftest: %s seed %d DIVERGED (GOMAXPROCS %s vs %s):\n  %s\n  %s\n", p, 1000+sd, procs[0], procs[v], sums[key{sd, 0}], sums[key{sd, v}])
+					if diverged <= 3 {
+						fmt.Printf("selftest: %s seed %d DIVERGED (GOMAXPROCS %s vs %s):\n  %.600s\n  %.600s\n", p, 1000+sd, procs[0], procs[v], sums[key{sd, 0}], sums[key{sd, v}])
+					}
 				}
 			}
 		}
